@@ -103,6 +103,23 @@ def _conc_run(scn, level, rec):
     return env, err
 
 
+def _raised_by_library(e):
+    """True if the exception left the scenario code, entered the repository's code and was raised there (or below)"""
+    from . import install
+    root = os.path.realpath(install.REPO) + os.sep
+    props = os.path.join(VERIF, 'props') + os.sep
+    last = None
+    tb = e.__traceback__
+    while tb is not None:
+        fn = os.path.realpath(tb.tb_frame.f_code.co_filename)
+        if fn.startswith(root):
+            last = 'repo'
+        elif fn.startswith(props):
+            last = 'props'
+        tb = tb.tb_next
+    return last == 'repo'
+
+
 def _jsonable(x):
     import numpy as np
     if isinstance(x, (np.integer,)):
@@ -144,6 +161,7 @@ def run_scenario(task):
         _apply_setup(scn.setup)
         state = {'stop': False, 'nviol': 0}
         proved = set()
+        kf_confirmed = set()
         tv_every = max(1, int(scn.setup.get('tv_every', 7)))
         tv_cap = int(scn.setup.get('tv_cap', 6))
 
@@ -160,7 +178,17 @@ def run_scenario(task):
                     perms = list(itertools.permutations(range(n)))
                     return list(_env.choose('task_order', perms))
                 stubs.PAR_MODE['order_chooser'] = chooser
-            scn.fn(env, **scn.params)
+            try:
+                scn.fn(env, **scn.params)
+            except (core.Unsupported, core.Budget, stubs.ReplayDiverged):
+                raise
+            except Exception as e:
+                # an exception that propagated out of the library under test on inputs the scenario considers valid is
+                # a candidate violation (confirmed only if the real library raises it on the concrete inputs as well)
+                if not _raised_by_library(e):
+                    raise
+                env.ob('library_raised.%s' % type(e).__name__, False)
+                env.notes['exception'] = '%s: %s' % (type(e).__name__, e)
             return env
 
         def record(ctx, env, model, label):
@@ -181,11 +209,12 @@ def run_scenario(task):
                 for level in (1, 2):
                     cenv, err = _conc_run(scn, level, rec)
                     failed = [o for o in cenv.obligations if o.label == ob.label and not o.cond]
-                    if err and err.startswith('exception') and not any(o.label == ob.label for o in cenv.obligations):
-                        # the real library crashed before the obligation could be evaluated
-                        rec['level'] = level
-                        rec['crash'] = err
-                        return level, rec
+                    if ob.label.startswith('library_raised.'):
+                        if err and err.startswith('exception: %s' % ob.label.split('.', 1)[1]):
+                            rec['level'] = level
+                            rec['crash'] = err
+                            return level, rec
+                        continue
                     if failed:
                         rec['level'] = level
                         return level, rec
@@ -201,6 +230,7 @@ def run_scenario(task):
                 # reachability witness: the path reached its end with a satisfiable path condition
                 if ctx.check(exact=True, timeout_ms=20000) == z3.sat:
                     res['twin_ok'] = True
+                    raise core.Budget('twin reached')
                 return
             if not obs:
                 return
@@ -250,6 +280,16 @@ def run_scenario(task):
                             models.append(ctx.last.model())
                             break
                     handled = False
+                    kfid = o.kf if (o.kf and o.kf in known) else None
+                    if kfid and kfid in kf_confirmed and o.alt is not None:
+                        # the listed finding has already been reproduced in this scenario: the deviation on this path is
+                        # accepted iff the bug-compatible specification holds here
+                        ra = ctx.check(z3.Not(_b(o.alt)), npc=npc, nas=nas)
+                        if ra != z3.unsat:
+                            ra = ctx.check(z3.Not(_b(o.alt)), defs=True, timeout_ms=20000, npc=npc, nas=nas)
+                        if ra == z3.unsat:
+                            res['known'].append(dict(kf=kfid, label=o.label))
+                            continue
 
                     def attempt(model):
                         level, rec = try_replay(ctx, env, o, model)
@@ -262,6 +302,7 @@ def run_scenario(task):
                                 ra = ctx.check(z3.Not(_b(o.alt)), defs=True, timeout_ms=20000, npc=npc, nas=nas)
                             if ra == z3.unsat:
                                 res['known'].append(dict(kf=kf, label=o.label))
+                                kf_confirmed.add(kf)
                                 return True
                             rec['note'] = 'deviates from the listed finding %s as well' % kf
                         state['nviol'] += 1
@@ -314,6 +355,9 @@ def run_scenario(task):
                 validate(ctx, env, not_proved)
 
         def validate(ctx, env, not_proved=()):
+            if any(o.label.startswith('library_raised.') for o in env.obligations):
+                res['tv_skipped'] += 1
+                return
             numeric_uf = any(k in str(d.name()) for d in _decls(ctx) for k in ('fn_', 'inv'))
             r = ctx.check(exact=True, timeout_ms=5000)
             if r != z3.sat:
@@ -405,7 +449,7 @@ def run_scenario(task):
         except core.Budget as e:
             agg = None
             res['complete'] = False
-            res['error'] = res['error'] or ('stopped: %s' % e) if not res['violations'] else None
+            res['error'] = None if (res['violations'] or res['twin_ok']) else (res['error'] or 'stopped: %s' % e)
         if agg:
             for k in ('transitions', 'checks', 'solver_time', 'unknown_feas', 'concretized', 'aborted'):
                 res[k] = agg[k]
@@ -473,7 +517,7 @@ def replay(pid, path):
             print('  FAILED obligation:', o.label)
     if 'detail' in cenv.notes:
         print('detail:', cenv.notes['detail'])
-    if failed or (err and err.startswith('exception') and rec.get('crash')):
+    if failed or (err and rec.get('crash') and err.split(':')[1].strip() == rec['crash'].split(':')[1].strip()):
         print('REPRODUCED')
         return 1
     print('NOT REPRODUCED')
@@ -515,9 +559,20 @@ def main(argv=None):
         for t in tasks:
             results.append(run_scenario(t))
     else:
+        import concurrent.futures as cf
         ctxm = mp.get_context('spawn')
-        with ctxm.Pool(min(a.jobs, len(tasks)), maxtasksperchild=8) as pool:
-            for r in pool.imap_unordered(run_scenario, tasks):
+        with cf.ProcessPoolExecutor(max_workers=min(a.jobs, len(tasks)), mp_context=ctxm, max_tasks_per_child=12) as ex:
+            futs = {ex.submit(run_scenario, t): t for t in tasks}
+            for fu in cf.as_completed(futs):
+                try:
+                    r = fu.result()
+                except Exception as e:   # a worker died (out of memory, crash of the solver library)
+                    t = futs[fu]
+                    r = dict(scenario=t[1], paths=0, transitions=0, checks=0, solver_time=0.0, obligations=0, discharged=0,
+                             discharged_batch=0, discharged_defs=0, candidates=0, violations=[], known=[], inconclusive=[],
+                             validated=0, tv_skipped=0, tv_mismatch=[], samples=[], functions=[], complete=False,
+                             error='worker failed: %s: %s' % (type(e).__name__, e), twin=False, twin_ok=None, cache_hits=0,
+                             unknown_feas=0, concretized=0, aborted=0, labels={}, bounds={}, wall=0.0)
                 results.append(r)
                 if os.environ.get('SX_VERBOSE'):
                     print('  done %-40s paths=%-6d obl=%-6d wall=%.1fs %s' % (
